@@ -523,8 +523,10 @@ class Gen:
                 "float": ["1.0", None, True, [1.0]],
                 "double": ["nan", None, False, {}],
                 "bytes": ["text", 5, None, [1, 2]],
-                "string": [b"bytes", 5, None, ["a"]],
+                "string": [b"bytes", 5, None, ["a"], b"long bytes " * 30],
             }[n]
+            if n in ("int", "long", "boolean", "null") and r.random() < 0.15:
+                choices = [b"\x00\x01" * 200, "long text é " * 40]        # long values (error messages abbreviate them)
             if t.get("lt"):
                 choices = [[], {"x": 1}]
                 if t["lt"] == "decimal":
@@ -541,7 +543,8 @@ class Gen:
             self.fault_done = "fixed-size"
             if t.get("lt"):
                 return r.choice([[], "x", decimal.Decimal((0, (9,) * (t["prec"] + 1), -t["scale"]))])
-            return r.choice([b"x" * (t["size"] + 1), b"x" * max(0, t["size"] - 1) if t["size"] else b"xy", bytearray(b"x" * t["size"]), "x" * t["size"], None])
+            return r.choice([b"x" * (t["size"] + 1), b"x" * max(0, t["size"] - 1) if t["size"] else b"xy", bytearray(b"x" * t["size"]), "x" * t["size"], None,
+                             b"y" * 300])
         if k == "array":
             self.fault_done = "not-a-sequence"
             return r.choice(["abc", 5, None, {"a": 1}])
@@ -719,7 +722,7 @@ class Gen:
         if n == "bytes":
             x = r.random()
             if x < 0.1:
-                return bytes(range(256))
+                return bytes(range(256)) + (b"" if x < 0.05 else bytes(r.getrandbits(8) for _ in range(r.choice([1, 44, 300]))))
             b = bytes(r.getrandbits(8) for _ in range(r.choice([0, 1, 2, 5, 63, 64, 65]) if x < 0.5 else r.randint(0, 12)))
             return bytearray(b) if r.random() < 0.15 else b
         if n == "string":
